@@ -41,12 +41,12 @@ func sendRun(regl uint32, mix string) (frames []sent, b *kit.Node, sb *state.Ses
 	sb = b.State().GetSession(pool[0].IP)
 	h := &state.EncryptionSessionTestHelper{EncryptionSession: sa.Encryption()}
 	h.ReglSetOut(regl)
-	h.PrioSetOut(40)
+	h.PrioSetOut(300)
 	hb := &state.EncryptionSessionTestHelper{EncryptionSession: sb.Encryption()}
 	if regl > 0 {
 		_ = hb.ReglSeq().Check(regl)
 	}
-	_ = hb.PrioSeq().Check(40)
+	_ = hb.PrioSeq().Check(300)
 	key0 := kit.Hash(h.OutKey())
 	for i := 0; i < len(mix); i++ {
 		mt := frame.NetworkTraffic
